@@ -1,7 +1,10 @@
 import DinoProofs.Lemmas.Shard
 import DinoProofs.Lemmas.ShardPad
 import DinoProofs.Lemmas.ShardBasis
+import DinoProofs.Lemmas.ShardBlock
+import DinoProofs.Lemmas.ShardEinsum
 import DinoProofs.Properties.C15
+import Mathlib.Algebra.Order.Floor.Ring
 
 /-!
 # C07 — sharded (model-parallel) execution equals single-device execution: property theorems
@@ -10,7 +13,9 @@ All statements are about the executable model `Dino.Shard` (tied to `jax_numpy_u
 `spherical_harmonic.py` by the schedule trace, the correspondence check and the sharded-vs-unsharded
 differential of `harness/props/C07.py`).  XLA's SPMD partitioner, `shard_map`, the collectives and
 `with_sharding_constraint` are *executed* by that check, not modelled: the theorems cover the logic
-of the hand-written collective schedules and the padding / stacking / offset bookkeeping.
+of the hand-written collective schedules (including the block decomposition that identifies what each
+device ends with as its shard of the *unsharded* product), the subscript / strategy logic of `sharded_einsum`
+and the padding / stacking / offset bookkeeping.
 
 Devices are `0 … n-1`; a device-indexed value is a list; products `mm l x` and their sums live in an
 arbitrary commutative monoid `M` (matrices of any shape), lists have any length, fields are arbitrary.
@@ -105,6 +110,298 @@ example : matmulReducescatter (fun (l x : Int) => l * x) 0
     = some [10 * 1 + 20 * 2 + 30 * 3 + 40 * 4, 11 * 1 + 21 * 2 + 31 * 3 + 41 * 4,
             12 * 1 + 22 * 2 + 32 * 3 + 42 * 4, 13 * 1 + 23 * 2 + 33 * 3 + 43 * 4] := by
   decide +kernel
+
+/-! ### the full contraction: every device ends with its shard of the UNSHARDED product
+
+`allgatherMatmul_even` / `matmulReducescatter_even` end at symbolic sums of chunk products.  Here the operands
+are the blocks of two unsharded matrices of the list model: `A` (coefficients, `(n·r) × (n·k)`) and `B`
+(inputs, `(n·k) × w`).  `lax.dynamic_slice_in_dim` is `rowChunk` / `colChunk`, the `shard_map` in-spec along
+the leading axis of `rhs` is `splitEvery k B`, the chunk product is `Lin.matMul`, read entrywise (`ent2`: sums
+of products then live in the commutative monoid `ℕ → ℕ → K`; entries outside a matrix read as `0`). -/
+
+section full
+open Dino.Lin
+variable {K : Type} [CommRing K]
+
+/-- the chunk product `matmul(lhs_chunk, rhs)` of the list model, read entrywise -/
+def mmEnt (w : Nat) (l x : List (List K)) : Nat → Nat → K := ent2 (matMul l x w)
+
+/-- **block decomposition, contraction axis split into `n` chunks** (all-gather form):
+ `Σ_c (columns chunk c of A) · (rows chunk c of B) = A · B` -/
+theorem block_decomposition_contraction (A B : List (List K)) (n k w : Nat) (hB : B.length ≤ n * k)
+    (hw : ∀ r ∈ B, r.length = w) :
+    ∑ c ∈ range n, mmEnt w (colChunk A c k) (rowChunk B c k) = mmEnt w A B :=
+  Dino.Shard.block_contraction A B n k w hB hw
+
+/-- **block decomposition, output rows** (reduce-scatter form): rows chunk `a` of `A · B` is
+ (rows chunk `a` of `A`) · `B` -/
+theorem block_decomposition_rows (A B : List (List K)) (a r w : Nat) :
+    rowChunk (matMul A B w) a r = matMul (rowChunk A a r) B w :=
+  (matMul_rowChunk A B a r w).symm
+
+/-- **T7.1, full form.** `sharded_einsum` with `gather_inputs`: device `a` holds rows chunk `a` of the
+ coefficients (`lhs_spec` taken from `out_spec`) with the whole contraction axis, and rows chunk `a` of the
+ inputs.  For every axis size `n` that is `1` or even, every chunk sizes `k ≥ 1`, `r`, every width `w`:
+ device `a` ends with exactly rows chunk `a` of the unsharded product `A · B`. -/
+theorem allgatherMatmul_unsharded (A B : List (List K)) (n k r w : Nat)
+    (hn : n = 1 ∨ (n % 2 = 0 ∧ 0 < n)) (hk : 0 < k) (hB : B.length = n * k)
+    (hw : ∀ row ∈ B, row.length = w) :
+    allgatherMatmul (mmEnt w) [] (fun a c => colChunk (rowChunk A a r) c k) (splitEvery k B)
+      = some ((List.range n).map fun a => ent2 (rowChunk (matMul A B w) a r)) := by
+  rw [allgatherMatmul_sum _ _ _ _ n (length_splitEvery B n k hk hB) hn]
+  congr 1
+  apply List.map_congr_left
+  intro a _
+  rw [block_decomposition_rows, ← block_contraction (rowChunk A a r) B n k w (by omega) hw]
+  apply Finset.sum_congr rfl
+  intro c hc
+  rw [getD_splitEvery B n k c hk hB (Finset.mem_range.1 hc)]
+  rfl
+
+/-- **T7.2, full form.** `sharded_einsum` without `gather_inputs`: device `s` holds columns chunk `s` of the
+ coefficients (`lhs_spec` taken from `rhs_spec`) with all output rows, and rows chunk `s` of the inputs; the
+ output rows are scattered.  Device `a` ends with exactly rows chunk `a` of the unsharded product `A · B`. -/
+theorem matmulReducescatter_unsharded (A B : List (List K)) (n k r w : Nat)
+    (hn : n = 1 ∨ (n % 2 = 0 ∧ 0 < n)) (hk : 0 < k) (hB : B.length = n * k)
+    (hw : ∀ row ∈ B, row.length = w) :
+    matmulReducescatter (mmEnt w) [] (fun s a => rowChunk (colChunk A s k) a r) (splitEvery k B)
+      = some ((List.range n).map fun a => ent2 (rowChunk (matMul A B w) a r)) := by
+  rw [matmulReducescatter_sum _ _ _ _ n (length_splitEvery B n k hk hB) hn]
+  congr 1
+  apply List.map_congr_left
+  intro a _
+  rw [block_decomposition_rows, ← block_contraction (rowChunk A a r) B n k w (by omega) hw]
+  apply Finset.sum_congr rfl
+  intro c hc
+  rw [getD_splitEvery B n k c hk hB (Finset.mem_range.1 hc), rowChunk_colChunk]
+  rfl
+
+/-- **batch letters.**  The einsums of the transforms carry batch letters (`z`, `s`, and `m` in the Legendre
+ steps) that index independent matrix problems: with any batch index type `ι`, coefficients `A b` and inputs `B b`
+ per batch index (the coefficients may or may not depend on it), both collectives leave on device `a`, for every
+ batch index `b`, rows chunk `a` of the unsharded product `A b · B b`. -/
+theorem collectives_unsharded_batched {ι : Type} (A B : ι → List (List K)) (n k r w : Nat)
+    (hn : n = 1 ∨ (n % 2 = 0 ∧ 0 < n)) (hB : ∀ b, (B b).length ≤ n * k)
+    (hw : ∀ b, ∀ row ∈ B b, row.length = w) :
+    allgatherMatmul (fun (l x : ι → List (List K)) b => mmEnt w (l b) (x b)) (fun _ => [])
+        (fun a c b => colChunk (rowChunk (A b) a r) c k)
+        ((List.range n).map fun s b => rowChunk (B b) s k)
+      = some ((List.range n).map fun a b => ent2 (rowChunk (matMul (A b) (B b) w) a r))
+    ∧ matmulReducescatter (fun (l x : ι → List (List K)) b => mmEnt w (l b) (x b)) (fun _ => [])
+        (fun s a b => rowChunk (colChunk (A b) s k) a r)
+        ((List.range n).map fun s b => rowChunk (B b) s k)
+      = some ((List.range n).map fun a b => ent2 (rowChunk (matMul (A b) (B b) w) a r)) := by
+  constructor
+  · rw [allgatherMatmul_sum _ _ _ _ n (by simp) hn]
+    congr 1
+    apply List.map_congr_left
+    intro a _
+    funext b
+    rw [block_decomposition_rows, ← block_contraction (rowChunk (A b) a r) (B b) n k w (hB b) (hw b),
+      Finset.sum_apply]
+    apply Finset.sum_congr rfl
+    intro c hc
+    rw [getD_map_range n _ _ c (Finset.mem_range.1 hc)]
+    rfl
+  · rw [matmulReducescatter_sum _ _ _ _ n (by simp) hn]
+    congr 1
+    apply List.map_congr_left
+    intro a _
+    funext b
+    rw [block_decomposition_rows, ← block_contraction (rowChunk (A b) a r) (B b) n k w (hB b) (hw b),
+      Finset.sum_apply]
+    apply Finset.sum_congr rfl
+    intro c hc
+    rw [getD_map_range n _ _ c (Finset.mem_range.1 hc)]
+    show mmEnt w (rowChunk (colChunk (A b) c k) a r) (rowChunk (B b) c k) = _
+    rw [rowChunk_colChunk]
+    rfl
+
+/-- the per-device results are the `shard_map` out-spec pieces of the unsharded product and reassemble to it -/
+theorem out_shards_reassemble (A B : List (List K)) (n r w : Nat) (hr : 0 < r) (hA : A.length = n * r) :
+    (splitEvery r (matMul A B w)).flatten = matMul A B w
+    ∧ ∀ a < n, (splitEvery r (matMul A B w)).getD a [] = rowChunk (matMul A B w) a r := by
+  have hl : (matMul A B w).length = n * r := by simp [matMul, hA]
+  exact ⟨splitEvery_flatten r hr n _ hl, fun a ha => getD_splitEvery _ n r a hr hl ha⟩
+
+/-- non-vacuity: 2 devices, `A` 2×4, `B` 4×2 (`k = 2`, `r = 1`); the hypotheses hold and the entries of the
+ result are those of the unsharded product -/
+def aEx : List (List ℤ) := [[1, 2, 3, 4], [5, 6, 7, 8]]
+def bEx' : List (List ℤ) := [[1, 0], [0, 1], [2, 1], [1, 3]]
+
+example : allgatherMatmul (mmEnt 2) [] (fun a c => colChunk (rowChunk aEx a 1) c 2) (splitEvery 2 bEx')
+    = some ((List.range 2).map fun a => ent2 (rowChunk (matMul aEx bEx' 2) a 1)) :=
+  allgatherMatmul_unsharded aEx bEx' 2 2 1 2 (Or.inr ⟨rfl, by omega⟩) (by omega) rfl (by decide)
+
+example : matmulReducescatter (mmEnt 2) [] (fun s a => rowChunk (colChunk aEx s 2) a 1) (splitEvery 2 bEx')
+    = some ((List.range 2).map fun a => ent2 (rowChunk (matMul aEx bEx' 2) a 1)) :=
+  matmulReducescatter_unsharded aEx bEx' 2 2 1 2 (Or.inr ⟨rfl, by omega⟩) (by omega) rfl (by decide)
+
+example : matMul aEx bEx' 2 = [[11, 17], [27, 37]] ∧ rowChunk (matMul aEx bEx' 2) 1 1 = [[27, 37]]
+    ∧ colChunk (rowChunk aEx 1 1) 1 2 = [[7, 8]] ∧ splitEvery 2 bEx' = [[[1, 0], [0, 1]], [[2, 1], [1, 3]]] := by
+  decide +kernel
+
+end full
+
+/-! ## the subscript and strategy logic of `sharded_einsum`
+
+`Dino.ShardEinsum` mirrors `_parse_einsum_subscripts`, `_determine_reduce_subscript`,
+`_determine_transfer_subscript`, the subscripts built by `_reversed_arg_order_einsum` and the choice between
+the two collectives with its `lhs_spec` / `split_axis` / `scatter_axis` / `axis_name` (compared with the real
+functions on every pattern the transforms use and on a malformed stream by `harness/props/c07_einsum.py`).
+Subscripts are ASCII (`\w` of the regular expression restricted to letters, digits, `_`). -/
+
+section einsum
+open Dino.ShardEinsum
+
+/-- `_parse_einsum_subscripts` accepts exactly the strings `lhs,rhs->out` made of three non-empty words and
+ returns the three words -/
+theorem parseSubscripts_spec (s l r o : List Char) :
+    parseSubscripts s = .ok (l, r, o)
+      ↔ s = joinSubscripts l r o ∧ Word l ∧ Word r ∧ Word o ∧ l ≠ [] ∧ r ≠ [] ∧ o ≠ [] :=
+  ⟨parseSubscripts_ok s l r o, fun ⟨hs, hl, hr, ho, hl0, hr0, ho0⟩ => by
+    rw [hs]; exact parseSubscripts_join l r o hl hr ho hl0 hr0 ho0⟩
+
+/-- on subscripts accepted by `sharded_einsum`, `_reversed_arg_order_einsum` calls `jnp.einsum` with the
+ subscripts `rhs,lhs->out` (and the operands swapped), which parse back to the swapped triple -/
+theorem reversedSubscripts_spec (s l r o : List Char) (h : parseSubscripts s = .ok (l, r, o)) :
+    reversedSubscripts s = .ok (joinSubscripts r l o)
+      ∧ parseSubscripts (joinSubscripts r l o) = .ok (r, l, o) := by
+  obtain ⟨hs, hl, hr, ho, hl0, hr0, ho0⟩ := parseSubscripts_ok s l r o h
+  rw [hs]
+  exact ⟨reversedSubscripts_join l r o hl hr ho, parseSubscripts_join r l o hr hl ho hr0 hl0 ho0⟩
+
+/-- the reversed-argument-order form denotes the same contraction: for every extents `dims`, operands `A`, `B`
+ (as functions of their index lists) over a commutative semiring and every output index `env`,
+ `einsum('l,r->o', A, B) = einsum('r,l->o', B, A)` (commutativity of the summand, same contracted letters) -/
+theorem reversedArgOrder_same_contraction {K : Type} [CommSemiring K] (dims : Char → Nat)
+    (l r o : List Char) (A B : List Nat → K) (env : Char → Nat) :
+    einsum2 dims l r o A B env = einsum2 dims r l o B A env := by
+  unfold einsum2
+  rw [summedLetters_swap, einsumAt_swap]
+
+/-- the reduce subscript chosen by `_determine_reduce_subscript` is a *contracted* letter (in both operands,
+ not in the output — hence among the summed letters of the denotation when ASCII) whose `rhs` axis is
+ *sharded* (`rhs_spec` entry not `None`); it occurs once in `lhs` and is the only such letter of `lhs` -/
+theorem determineReduce_spec (l r o : List Char) (spec : List (Option String)) (c : Char)
+    (h : determineReduce l r o spec = .ok c) :
+    c ∈ l ∧ c ∈ r ∧ c ∉ o ∧ (∃ name, spec[r.idxOf c]? = some (some name)) ∧ l.count c = 1
+      ∧ (c.toNat < 128 → c ∈ summedLetters l r o)
+      ∧ ∀ c' ∈ l, c' ∈ r → c' ∉ o → (∃ name, spec[r.idxOf c']? = some (some name)) → c' = c := by
+  obtain ⟨h1, h2, h3, h4⟩ := select_ok (keepReduce r o spec) l c h
+  obtain ⟨ho, hr, hn⟩ := (keepReduce_true r o spec c).1 h2
+  refine ⟨h1, hr, ho, hn, h3, fun hc => (mem_summedLetters l r o c hc).2 ⟨Or.inl h1, ho⟩, ?_⟩
+  intro c' hc' hr' ho' hn'
+  exact h4 c' hc' ((keepReduce_true r o spec c').2 ⟨ho', hr', hn'⟩)
+
+/-- the transfer subscript chosen by `_determine_transfer_subscript` is an output letter coming from `lhs`
+ only, whose output axis is *sharded* (`out_spec` entry not `None`); it is the only such letter of `lhs` -/
+theorem determineTransfer_spec (l r o : List Char) (spec : List (Option String)) (c : Char)
+    (h : determineTransfer l r o spec = .ok c) :
+    c ∈ l ∧ c ∉ r ∧ c ∈ o ∧ (∃ name, spec[o.idxOf c]? = some (some name)) ∧ l.count c = 1
+      ∧ ∀ c' ∈ l, c' ∉ r → c' ∈ o → (∃ name, spec[o.idxOf c']? = some (some name)) → c' = c := by
+  obtain ⟨h1, h2, h3, h4⟩ := select_ok (keepTransfer r o spec) l c h
+  obtain ⟨hr, ho, hn⟩ := (keepTransfer_true r o spec c).1 h2
+  refine ⟨h1, hr, ho, hn, h3, ?_⟩
+  intro c' hc' hr' ho' hn'
+  exact h4 c' hc' ((keepTransfer_true r o spec c').2 ⟨hr', ho', hn'⟩)
+
+/-- what `sharded_einsum` decides on a mesh: the reduce / transfer letters are the ones above; the mesh axis of
+ the collective is the one sharding the reduce letter in `rhs`; an explicit `gather_inputs` is obeyed, the
+ default compares the data volumes; the all-gather matmul splits `lhs` along the *reduce* letter, the
+ reduce-scatter matmul scatters along the *transfer* letter; `lhs_spec` copies `out_spec` resp. `rhs_spec` -/
+theorem plan_spec (s : List Char) (lsh rsh : List Nat) (g : Option Bool) (rspec ospec : List (Option String))
+    (p : Plan) (h : plan s lsh rsh g rspec ospec = .ok p) :
+    ∃ l r o, parseSubscripts s = .ok (l, r, o)
+      ∧ determineReduce l r o rspec = .ok p.reduce
+      ∧ determineTransfer l r o ospec = .ok p.transfer
+      ∧ rspec[r.idxOf p.reduce]? = some p.axisName
+      ∧ (∀ b, g = some b → p.gather = b)
+      ∧ (g = none → p.gather = decide (prodL (outShape l r o lsh rsh) > prodL rsh))
+      ∧ p.axis = l.idxOf (if p.gather then p.reduce else p.transfer)
+      ∧ lhsPartitions l (if p.gather then o else r) (if p.gather then ospec else rspec) = .ok p.lhsSpec := by
+  unfold plan at h
+  cases hp : parseSubscripts s with
+  | error e => rw [hp] at h; cases h
+  | ok t =>
+    obtain ⟨l, r, o⟩ := t
+    rw [hp] at h
+    simp only [bind, Except.bind] at h
+    cases hred : determineReduce l r o rspec with
+    | error e => rw [hred] at h; cases h
+    | ok red =>
+      rw [hred] at h
+      simp only at h
+      cases htr : determineTransfer l r o ospec with
+      | error e => rw [htr] at h; cases h
+      | ok tr =>
+        rw [htr] at h
+        simp only at h
+        cases hname : specAt rspec (r.idxOf red) with
+        | error e => rw [hname] at h; cases h
+        | ok name =>
+          rw [hname] at h
+          simp only at h
+          refine ⟨l, r, o, rfl, ?_⟩
+          generalize hgc : chooseGather g (prodL (outShape l r o lsh rsh)) (prodL rsh) = gc at h
+          have hg1 : ∀ b, g = some b → gc = b := by
+            intro b hb; subst hb; simpa [chooseGather] using hgc.symm
+          have hg2 : g = none → gc = decide (prodL (outShape l r o lsh rsh) > prodL rsh) := by
+            intro hb; subst hb; simpa [chooseGather] using hgc.symm
+          cases gc with
+          | true =>
+            simp only [if_true] at h
+            cases hparts : lhsPartitions l o ospec with
+            | error e => rw [hparts] at h; cases h
+            | ok parts =>
+              rw [hparts] at h
+              simp only [pure, Except.pure, Except.ok.injEq] at h
+              subst h
+              exact ⟨hred, htr, (specAt_ok _ _ _).1 hname, hg1, hg2, by simp, by simpa using hparts⟩
+          | false =>
+            simp only [Bool.false_eq_true, if_false] at h
+            cases hparts : lhsPartitions l r rspec with
+            | error e => rw [hparts] at h; cases h
+            | ok parts =>
+              rw [hparts] at h
+              simp only [pure, Except.pure, Except.ok.injEq] at h
+              subst h
+              exact ⟨hred, htr, (specAt_ok _ _ _).1 hname, hg1, hg2, by simp, by simpa using hparts⟩
+
+/-- non-vacuity on the patterns of the transforms (`_transform_einsum`, one leading `z` dimension): inverse
+ Legendre (reduce `l` over `y`), stacked inverse Fourier (reduce `m` over `x`, the unsharded `s` is skipped),
+ forward Fourier (reduce `i`), forward Legendre (reduce `j`); explicit and default strategy -/
+example :
+    plan "mjl,zsml->zsmj".toList [8, 16, 8] [2, 2, 8, 8] (some true)
+        [some "z", none, some "x", some "y"] [some "z", none, some "x", some "y"]
+      = .ok { gather := true, lhsSpec := [some "x", some "y", none], axis := 2, axisName := some "y",
+              reduce := 'l', transfer := 'j' }
+    ∧ plan "ism,zsmj->zij".toList [16, 2, 8] [2, 2, 8, 16] (some false)
+        [some "z", none, some "x", some "y"] [some "z", some "x", some "y"]
+      = .ok { gather := false, lhsSpec := [none, none, some "x"], axis := 0, axisName := some "x",
+              reduce := 'm', transfer := 'i' }
+    ∧ plan "im,zij->zmj".toList [16, 16] [2, 16, 16] none
+        [some "z", some "x", some "y"] [some "z", some "x", some "y"]
+      = .ok { gather := false, lhsSpec := [some "x", none], axis := 1, axisName := some "x",
+              reduce := 'i', transfer := 'm' }
+    ∧ plan "mjl,zsmj->zsml".toList [8, 16, 8] [2, 2, 8, 16] none
+        [some "z", none, some "x", some "y"] [some "z", none, some "x", some "y"]
+      = .ok { gather := false, lhsSpec := [some "x", some "y", none], axis := 2, axisName := some "y",
+              reduce := 'j', transfer := 'l' } := by
+  decide +kernel
+
+/-- malformed input is rejected as by the code: ellipsis, missing output, several sharded reduced axes, a spec
+ shorter than the subscripts -/
+example :
+    parseSubscripts "mjl,...sml->...smj".toList = valueError
+    ∧ parseSubscripts "ab,bc".toList = valueError
+    ∧ reversedSubscripts "ab,bc".toList = valueError
+    ∧ determineReduce "abd".toList "bdc".toList "ac".toList [some "x", some "y", none] = valueError
+    ∧ determineReduce "ab".toList "cb".toList "ac".toList [some "x"] = indexError
+    ∧ reversedSubscripts "ab,bc->ac".toList = .ok "bc,ab->ac".toList := by
+  decide +kernel
+
+end einsum
 
 /-! ## T7.3 — the parallel prefix sum -/
 
@@ -224,8 +521,35 @@ theorem shardedDerivative_eq (shards : List (List (List K))) (s w : Nat) (hs : s
 example : (shardedDerivative ([[[1], [2], [3], [4]], [[5], [6], [7], [8]]] : List (List (List ℚ))) 1).flatten
     = zeroImagDerivative [[1], [2], [3], [4], [5], [6], [7], [8]] 1 0 := by decide +kernel
 
-/-- negative witnesses: shards of odd length split a `(+m, −m)` pair, and the offset `size`
- (instead of `size // 2`) doubles the wavenumber on the second shard -/
+/-- the same statement with the validation of `fourier.real_basis_derivative_with_zero_imag`
+ (`ValueError` for an odd number of rows): shards of a common even length are accepted, and so is the
+ unsharded call on their concatenation -/
+theorem shardedDerivativeChecked_eq (shards : List (List (List K))) (s w : Nat) (hs : s % 2 = 0)
+    (h : ∀ u ∈ shards, u.length = s) :
+    ∃ d, shardedDerivativeChecked shards w = some d
+      ∧ zeroImagDerivativeChecked shards.flatten w 0 = some d.flatten := by
+  refine ⟨shardedDerivative shards w,
+    shardedDerivativeChecked_even shards w (fun u hu => by rw [h u hu]; exact hs), ?_⟩
+  rw [shardedDerivative_eq shards s w hs h]
+  unfold zeroImagDerivativeChecked
+  rw [if_neg]
+  have := flatten_length_even shards (fun u hu => by rw [h u hu]; exact hs)
+  omega
+
+/-- a shard with an odd number of rows makes the sharded call raise (`ValueError`), whatever the data -/
+theorem odd_shards_rejected (shards : List (List (List K))) (w : Nat)
+    (h : ∃ u ∈ shards, u.length % 2 = 1) : shardedDerivativeChecked shards w = none :=
+  shardedDerivativeChecked_odd shards w h
+
+/-- non-vacuity: two shards of 3 rows are rejected although the unsharded call on the 6 rows is accepted -/
+example : shardedDerivativeChecked ([[[1], [2], [3]], [[4], [5], [6]]] : List (List (List ℚ))) 1 = none
+    ∧ (zeroImagDerivativeChecked ([[1], [2], [3], [4], [5], [6]] : List (List ℚ)) 1 0).isSome = true := by
+  constructor <;> decide +kernel
+
+/-- why the code insists on even shards and on the offset `size // 2` — witnesses about the *unchecked
+ arithmetic* `Fourier.zeroImagDerivative`, NOT about the behaviour of the code (for odd shards the code raises
+ `ValueError` first: `odd_shards_rejected`): shards of odd length would split a `(+m, −m)` pair, and the offset
+ `size` (instead of `size // 2`) doubles the wavenumber on the second shard -/
 theorem odd_shards_are_wrong :
     (shardedDerivative ([[[1], [2], [3]], [[4], [5], [6]]] : List (List (List ℚ))) 1).flatten
       ≠ zeroImagDerivative [[1], [2], [3], [4], [5], [6]] 1 0 := by decide +kernel
@@ -245,6 +569,71 @@ theorem roundToMultiple_spec (x m : Nat) (hm : 0 < m) :
 
 theorem roundToMultiple_zero (x : Nat) : roundToMultiple x 0 = none :=
   Dino.Shard.roundToMultiple_zero x
+
+/-- **side condition of the model of `_round_to_multiple`.**  Python computes
+ `multiple * math.ceil(x / multiple)` with a binary64 quotient `d`.  For `x < 2^53` *any* `d` that is exact
+ when `multiple ∣ x` and has relative error at most `2^-53` otherwise (both hold for IEEE-754 division of two
+ integers below `2^53`) has the ceiling used by the model, so the integer formula agrees with the code on that
+ range.  (Beyond it the two differ: `_round_to_multiple(2**53 + 1, 1) = 2**53`, observed by the check.) -/
+theorem roundToMultiple_float_agrees (x m : ℕ) (hm : 0 < m) (hx : x < 2 ^ 53) (d : ℚ)
+    (hexact : m ∣ x → d = (x : ℚ) / m)
+    (herr : |d - (x : ℚ) / m| ≤ (x : ℚ) / m / 2 ^ 53) :
+    roundToMultiple x m = some (m * ⌈d⌉.toNat) := by
+  unfold roundToMultiple
+  rw [if_neg (by omega)]
+  congr 2
+  have hmq : (0 : ℚ) < m := by exact_mod_cast hm
+  have hdm := Nat.div_add_mod x m
+  have hlt := Nat.mod_lt x hm
+  set q := x / m with hq
+  set rr := x % m with hrr
+  have hxq : (x : ℚ) = (m : ℚ) * q + rr := by exact_mod_cast hdm.symm
+  rcases Nat.eq_zero_or_pos rr with h0 | hpos
+  · have hdvd : m ∣ x := Nat.dvd_of_mod_eq_zero (by omega)
+    have hd : d = (q : ℚ) := by
+      rw [hexact hdvd, hxq, h0]
+      field_simp
+      simp
+    rw [hd]
+    have : ⌈((q : ℕ) : ℚ)⌉ = (q : ℤ) := Int.ceil_natCast q
+    rw [this, Int.toNat_natCast]
+    have : x + m - 1 = m - 1 + m * q := by omega
+    rw [this, Nat.add_mul_div_left _ _ hm, Nat.div_eq_of_lt (by omega)]
+    omega
+  · have hceil : ⌈d⌉ = ((q + 1 : ℕ) : ℤ) := by
+      rw [Int.ceil_eq_iff]
+      have hab := abs_le.1 herr
+      set y := (x : ℚ) / m with hy
+      have hym : y * m = x := by rw [hy]; field_simp
+      have hp : (0 : ℚ) < 2 ^ 53 := by positivity
+      set e := y / 2 ^ 53 with he
+      have hey : e * 2 ^ 53 = y := by rw [he]; field_simp
+      have hxq' : (x : ℚ) < 2 ^ 53 := by exact_mod_cast hx
+      have hem : e * m < 1 := by
+        have : e * m * 2 ^ 53 < 1 * 2 ^ 53 := by nlinarith
+        exact lt_of_mul_lt_mul_right this hp.le
+      have hr1 : (1 : ℚ) ≤ rr := by exact_mod_cast hpos
+      have hr2 : (rr : ℚ) + 1 ≤ m := by exact_mod_cast hlt
+      push_cast
+      constructor
+      · have : (q : ℚ) * m < d * m := by nlinarith
+        have := lt_of_mul_lt_mul_right this hmq.le
+        linarith
+      · have : d * m ≤ ((q : ℚ) + 1) * m := by nlinarith
+        exact le_of_mul_le_mul_right this hmq
+    rw [hceil, Int.toNat_natCast]
+    have : x + m - 1 = (rr - 1) + m * (q + 1) := by
+      have : m * (q + 1) = m * q + m := by ring
+      omega
+    rw [this, Nat.add_mul_div_left _ _ hm, Nat.div_eq_of_lt (by omega)]
+    omega
+
+/-- non-vacuity: `x = 19, multiple = 16`: the exact quotient `19/16` satisfies both hypotheses -/
+example : roundToMultiple 19 16 = some (16 * ⌈(19 : ℚ) / 16⌉.toNat) :=
+  roundToMultiple_float_agrees 19 16 (by omega) (by norm_num) _ (fun _ => by norm_num)
+    (by norm_num)
+
+example : roundToMultiple 19 16 = some 32 := by decide
 
 /-- the padded shapes of `FastSphericalHarmonics` on a mesh with `xs × ys` horizontal shards:
  they contain the unpadded limits, every axis is divisible by its number of shards, and the modal
